@@ -814,15 +814,17 @@ pub fn main(a: &Args) {
                 }
                 let rec: J = serde_json::from_str(&line).unwrap();
                 let label = rec["label"].as_str().unwrap_or("?").to_owned();
+                let dec = rec["dec"].as_str().unwrap_or("bin").to_owned();
                 let data = canon::unhex(rec["hex"].as_str().unwrap_or(""));
                 sup.rep.evaluations += 1;
-                sup.rep.count(&format!("structured.{}", label));
+                sup.rep.count(&format!("structured.{}", label.split("-len").next().unwrap_or(&label).trim_end_matches(|c: char| c.is_ascii_digit()).trim_end_matches('-')));
                 sup.rep.nontrivial(crate::rng::fnv64(&data));
                 sup.rep.sample(json!({"label": label, "bytes": data.len()}));
-                let replay = json!({"cmd": "c13", "mode": "replay", "decoder": "bin", "input_hex": canon::hex(&data[..data.len().min(1 << 20)]), "how": label});
-                let resp = sup.w.call(&format!("D bin {}", canon::hex(&data)), to);
-                sup.rep.count(&format!("structured-outcome.{}.{}", label, resp["o"].as_str().unwrap_or("?")));
-                sup.judge_decode("bin", &format!("structured:{}", label), &data, &resp, false, replay);
+                let replay = json!({"cmd": "c13", "mode": "replay", "decoder": dec, "input_hex": canon::hex(&data[..data.len().min(1 << 20)]), "how": label});
+                let resp = sup.w.call(&format!("D {} {}", dec, canon::hex(&data)), to);
+                let lab_class: String = label.split("-len").next().unwrap_or(&label).trim_end_matches(|c: char| c.is_ascii_digit()).trim_end_matches('-').to_owned();
+                sup.rep.count(&format!("structured-outcome.{}.{}", lab_class, resp["o"].as_str().unwrap_or("?")));
+                sup.judge_decode(&dec, &format!("structured:{}", label), &data, &resp, false, replay);
             }
         }
         "mutate" => {
